@@ -95,6 +95,103 @@ def oracle(line, res):
     return out
 
 
+def cdet_exact(Ar, Ai):
+    """exact determinant of a complex matrix given by Fractions (real, imag): returns (re, im)"""
+    n = len(Ar)
+    M = [[(Fraction(Ar[i][j]), Fraction(Ai[i][j])) for j in range(n)] for i in range(n)]
+    cm = lambda a, b: (a[0] * b[0] - a[1] * b[1], a[0] * b[1] + a[1] * b[0])
+    cd = lambda a, b: ((a[0] * b[0] + a[1] * b[1]) / (b[0] ** 2 + b[1] ** 2), (a[1] * b[0] - a[0] * b[1]) / (b[0] ** 2 + b[1] ** 2))
+    det = (Fraction(1), Fraction(0))
+    for k in range(n):
+        p = next((i for i in range(k, n) if M[i][k] != (0, 0)), None)
+        if p is None:
+            return (Fraction(0), Fraction(0))
+        if p != k:
+            M[k], M[p] = M[p], M[k]
+            det = (-det[0], -det[1])
+        det = cm(det, M[k][k])
+        for i in range(k + 1, n):
+            f = cd(M[i][k], M[k][k])
+            if f != (0, 0):
+                for j in range(k, n):
+                    t = cm(f, M[k][j])
+                    M[i][j] = (M[i][j][0] - t[0], M[i][j][1] - t[1])
+    return det
+
+
+def oracle_c(line, res):
+    """complex twin of `oracle`: shape rejections, zero column, multipliers (|re|+|im| pivoting keeps |l|_1 <= sqrt 2), exact residual"""
+    kv = dict(t.split("=", 1) for t in line.split()[1:] if "=" in t)
+    n, cols, iplen = int(kv["n"]), int(kv["cols"]), int(kv["iplen"])
+    un = lambda key: [unhx(x) for x in kv[key].split(":", 1)[1].split(",")] if kv[key].split(":", 1)[1] else []
+    ar, ai, br, bi = un("ar"), un("ai"), un("br"), un("bi")
+    out = []
+    r0 = res[0] if res else "none"
+    if n != cols:
+        if r0 != "res nonsquare":
+            out.append(("shape-error-complex", "non-square input must be rejected with NonSquareMatrix, got %r" % r0))
+        return out
+    if iplen != n:
+        if r0 != "res pivotsize":
+            out.append(("pivot-size-error-complex", "pivot slice of wrong length must be rejected with PivotSizeMismatch, got %r" % r0))
+        return out
+    Ar = [ar[i * n:(i + 1) * n] for i in range(n)]
+    Ai = [ai[i * n:(i + 1) * n] for i in range(n)]
+    if any(all(Ar[i][k] == 0.0 and Ai[i][k] == 0.0 for i in range(n)) for k in range(n)):
+        if r0 != "res singular":
+            out.append(("zero-column-accepted-complex", "a complex matrix with an identically zero column was not rejected with SingularMatrix: %r" % r0))
+        return out
+    if r0 == "res panic":
+        out.append(("panic-complex", "lu_decomp_complex panicked on a valid input"))
+        return out
+    if r0 == "res singular":
+        d = cdet_exact(Ar, Ai)
+        had = 1.0
+        for i in range(n):
+            had *= max(1e-300, sum(Ar[i][j] ** 2 + Ai[i][j] ** 2 for j in range(n)) ** 0.5)
+        if d != (0, 0) and (float(d[0]) ** 2 + float(d[1]) ** 2) ** 0.5 > 1e-8 * had:
+            out.append(("nonsingular-rejected-complex", "a nonsingular complex matrix was rejected with SingularMatrix"))
+        return out
+    if r0 != "res ok":
+        out.append(("unexpected-result-complex", "unexpected result %r" % r0))
+        return out
+    if any(l == "solve panic" for l in res):
+        out.append(("solve-panic-complex", "lin_solve_complex panicked"))
+        return out
+    lur = [l for l in res if l.startswith("lur ")]
+    lui = [l for l in res if l.startswith("lui ")]
+    if lur and lui:
+        Lr = [unhx(v) for v in lur[0].split()[1].split(",")]
+        Li = [unhx(v) for v in lui[0].split()[1].split(",")]
+        for k in range(n - 1):
+            for i in range(k + 1, n):
+                m2 = Lr[i * n + k] ** 2 + Li[i * n + k] ** 2
+                if m2 > 2.0 * (1 + 16 * EPS):
+                    out.append(("multiplier-gt-1-complex", "stored multiplier |l(%d,%d)|^2 = %r > 2: the pivot was not the entry of largest |re|+|im| in its column" % (i, k, m2)))
+                    return out
+    ut = [l for l in res if l.startswith("a_untouched ")]
+    if ut and ut[0] != "a_untouched true":
+        out.append(("solve-modified-matrix-complex", "lin_solve_complex modified the factorised matrices"))
+    xr = [l for l in res if l.startswith("xr ")]
+    xi = [l for l in res if l.startswith("xi ")]
+    if xr and xi:
+        xr = [unhx(v) for v in xr[0].split()[1].split(",")]
+        xi = [unhx(v) for v in xi[0].split()[1].split(",")]
+        if all(v == v and abs(v) != float("inf") for v in xr + xi):
+            F = Fraction
+            worst = F(0)
+            for i in range(n):
+                sr = sum(F(Ar[i][j]) * F(xr[j]) - F(Ai[i][j]) * F(xi[j]) for j in range(n)) - F(br[i])
+                si = sum(F(Ar[i][j]) * F(xi[j]) + F(Ai[i][j]) * F(xr[j]) for j in range(n)) - F(bi[i])
+                worst = max(worst, abs(sr) + abs(si))
+            normA = max(sum(abs(F(Ar[i][j])) + abs(F(Ai[i][j])) for j in range(n)) for i in range(n))
+            normx = max(abs(F(a)) + abs(F(b)) for a, b in zip(xr, xi))
+            bound = F(64) * n * F(EPS) * normA * normx * growth_allowance(n)
+            if worst > bound and bound > 0:
+                out.append(("residual-complex", "max |A x - b| = %.3g exceeds 64 n eps |A| |x| = %.3g (complex system)" % (float(worst), float(bound))))
+    return out
+
+
 def growth_allowance(n):
     return Fraction(max(1, n))
 
@@ -144,7 +241,7 @@ def check():
         "Coq 8.16.1 kernel; theorems over R (stdlib real axioms) about model/LU.v",
         "extraction + driver.ml + /verif/harness for the bit-exact replay of lu_decomp / lin_solve",
         "floating-point backward error (Wilkinson/Higham) is NOT proved: measured by the exact-rational residual oracle only",
-        "complex LU (lu_decomp_complex / lin_solve_complex) is exercised by the Radau replays, not by a separate theorem",
+        "complex LU (lu_decomp_complex / lin_solve_complex): model/LUc.v replayed bit-for-bit on generated complex systems and inside the Radau replays; its exact-arithmetic correctness is not a theorem yet (see props/C16.v)",
     ]
     broken = []
     common.regenerate()
@@ -165,6 +262,9 @@ def check():
     for l in ex:
         metas[harness.case_id(l)] = {"n": int(l.split("n=")[1].split()[0]), "kind": "small-int-exhaustive"}
     cases += ex
+    cc, mc = gen_mat.luc_cases(common.seed(), 12000 if thorough else 1600, 10 if thorough else 6)
+    cases += cc
+    metas.update(mc)
     impl, e1 = harness.run_impl(cases)
     model, e2 = harness.run_model(cases)
     df = harness.diff(cases, impl, model)
@@ -180,7 +280,7 @@ def check():
         dist["%s/%s" % (m["kind"], res[0] if res else "none")] += 1
         if m["n"] >= 2 and res and res[0] == "res ok":
             nontriv.add(line.split(" ", 2)[2])
-        fired = oracle(line, res)
+        fired = oracle_c(line, res) if line.startswith("luc ") else oracle(line, res)
         for key, msg in fired:
             found = True
             rep.violation({"property": "C16", "case": line, "meta": m, "observed": msg, "impl_result": res[:6]}, found=True, key=key)
@@ -198,7 +298,8 @@ def check():
     rep.cov["rule"] = ("random dense / small-integer / sparse / graded / permuted-triangular / exactly singular / zero-column / shape-error matrices "
                        "n=1..8 (thorough 1..12), power-of-two scaled and graded well-conditioned matrices, and small-integer matrices up to 3x3 "
                        "(entries -2..2: sampled in quick, exhaustive in thorough); LU, pivots and solution compared bit-for-bit with the model; "
-                       "residual checked in exact rational arithmetic; non-trivial = n>=2 and factorisation succeeded")
+                       "complex systems n=1..6 (10) with exactly real / imaginary / zero entries, Radau-shaped, singular, zero-column and shape-error cases "
+                       "through lu_decomp_complex / lin_solve_complex; residuals checked in exact rational arithmetic; non-trivial = n>=2 and factorisation succeeded")
     rep.cov["samples"] = [c[:300] for c in cases[:3]]
     rep.cov["distribution"] = dict(dist.most_common(40))
     rep.cov["correspondence_disagreements"] = len(df)
